@@ -597,7 +597,11 @@ def predicate_history(ctx, case, obs):
         o = case['overlap']
         how = 'writer B (%s) had opened its file and written %s of its text when writer A (%s) ran a whole store' % (
             o['b'], {'before': 'nothing', 'mid': 'half', 'after': 'all'}[o['at']], o['a'])
-        if not ov['parked']:
+        if not ov['parked'] and o['b'] == 'load' and not ov['errors']:
+            ctx.fail(rep, 'a complete load of the instance directory with updateInstanceConfiguration=True (experimentFromInstance) did '
+                          'not store the description it loaded', [])
+            return
+        if not ov['parked'] and not ov['errors']:
             raise RuntimeError('C07 driver: writer B never reached the dump of its description')
         for w in sorted(ov['errors']):
             ctx.fail(dict(rep, error=ov['errors'][w]), 'two overlapping stores of the instance description: the store of writer %s '
